@@ -85,6 +85,16 @@ theorem closeConn_quiet (R : RespTab) (x : Conn) : Quiet (closeConn R x).2.2 := 
 theorem finishReply_quiet (R : RespTab) (x : Conn) : Quiet (finishReply R x).2.2.2 := by
   unfold finishReply; exact closeConn_quiet R x
 
+theorem runReply_quiet (R : RespTab) (x : Conn) (r : Nat) (cl : Bool) : Quiet (runReply R x r cl).2.2.2 := by
+  unfold runReply
+  split
+  · exact closeConn_quiet _ _
+  · split
+    · exact quiet_append (fun c => by simp) (closeConn_quiet _ _)
+    · split
+      · exact quiet_nil
+      · exact finishReply_quiet _ _
+
 theorem doReply_quiet (cfg : Cfg) (R : RespTab) (x : Conn) (r : Nat) (cl : Bool) : Quiet (doReply cfg R x r cl).2.2.2 := by
   unfold doReply
   split
@@ -93,20 +103,49 @@ theorem doReply_quiet (cfg : Cfg) (R : RespTab) (x : Conn) (r : Nat) (cl : Bool)
     · intro c; simp
     · split
       · intro c; simp
-      · split
-        · exact quiet_append (fun c => by simp) (closeConn_quiet _ _)
-        · split
-          · exact quiet_append (fun c => by simp) (closeConn_quiet _ _)
-          · split
-            · intro c; simp
-            · exact quiet_append (fun c => by simp) (finishReply_quiet _ _)
+      · exact quiet_append (fun c => by simp) (runReply_quiet _ _ _ _)
+
+theorem interimOne_quiet (R : RespTab) (x : Conn) (r : Nat) : Quiet (interimOne R x r).2.2 := by
+  unfold interimOne
+  split
+  · intro c; simp
+  · split
+    · intro c; simp
+    · exact quiet_append (fun c => by simp) (release_quiet _ _)
+
+theorem interims_quiet (x : Conn) (l : List Nat) : ∀ (R : RespTab), Quiet (interims R x l).2.2 := by
+  induction l with
+  | nil => intro R; exact quiet_nil
+  | cons r rest ih =>
+    intro R
+    unfold interims
+    have h1 := interimOne_quiet R x r
+    generalize interimOne R x r = q at h1 ⊢
+    obtain ⟨R1, ok, e⟩ := q
+    cases ok with
+    | false => exact h1
+    | true => exact quiet_append h1 (ih R1)
+
+theorem replyPre_quiet (cfg : Cfg) (R : RespTab) (x : Conn) (r : Nat) (cl : Bool) (pre : List Nat) :
+    Quiet (replyPre cfg R x r cl pre).2.2.2 := by
+  unfold replyPre
+  have h1 := interims_quiet x pre R
+  generalize interims R x pre = q at h1 ⊢
+  obtain ⟨R1, ok, e⟩ := q
+  cases ok with
+  | false => exact h1
+  | true => exact quiet_append h1 (doReply_quiet _ _ _ _ _)
 
 theorem handleReq_quiet (cfg : Cfg) (R : RespTab) (x : Conn) : Quiet (handleReq cfg R x).2.2.2 := by
   unfold handleReq
   split
   · exact quiet_nil
   · split <;> (intro c; simp)
-  · exact doReply_quiet _ _ _ _ _
+  · exact replyPre_quiet _ _ _ _ _ _
+  · exact quiet_nil
+  · split
+    · exact runReply_quiet _ _ _ _
+    · exact quiet_nil
 
 theorem afterReq_quiet (R : RespTab) (x : Conn) : Quiet (afterReq R x).2.2.2 := by
   unfold afterReq
@@ -569,6 +608,15 @@ theorem arrive_bal (c : Nat) (s : St) (a : Nat) (v ext : Bool) :
 
 /-! ### every operation, every history -/
 
+theorem nu_queueFirst (c id r : Nat) (l : List Conn) : nu c (queueFirst id r l) = nu c l := by
+  induction l with
+  | nil => rfl
+  | cons x l ih =>
+    unfold queueFirst
+    split
+    · simp only [nu_cons, setQueued]
+    · simp [ih]
+
 theorem mapAll_bal (c : Nat) (s : St) (id : Nat) (f : Conn → Conn) (hf : ∀ x, (f x).id = x.id) :
     NN c (mapAll s (updConn id f)) [] = NN c s [] ∧ LL c (mapAll s (updConn id f)) [] = LL c s [] := by
   simp [mapAll, NN, LL, nu_updConn c id f hf]
@@ -641,6 +689,20 @@ theorem step_tinv (s : St) (o : Op) (tr : List Ev) (h : TInv s tr) : TInv (step 
       split
       · exact h.same rfl (fun _ => rfl) (fun _ => rfl)
       · refine h.of_bal0 rfl (fun c => Bal.quiet (release_quiet _ _))
+    | extQueue c r =>
+      simp only
+      unfold extQueue
+      split
+      · exact h.of_bal0 rfl (fun x => Bal.quiet (fun y => by simp))
+      · split
+        · exact h.of_bal0 rfl (fun x => Bal.quiet (fun y => by simp))
+        · rename_i R1 _
+          refine TInv.of_bal0 (s' := { s with resps := R1.tab, susp := queueFirst c r s.susp }) h rfl (fun x => ?_)
+          have e1 : LL x { s with resps := R1.tab, susp := queueFirst c r s.susp } [] = LL x s [] := by
+            simp [LL, nu_queueFirst]
+          rw [e1]
+          exact Bal.quiet (fun y => by simp)
+    | acceptFail => exact h.same rfl (fun _ => rfl) (fun _ => rfl)
 
 theorem init_tinv (cfg : Cfg) : TInv (St.init cfg) [] := by
   intro c; simp [St.init, NN, LL]
